@@ -142,7 +142,7 @@ def solve_one(ip, ob, timeout_ms, retry):
         except Exception:
             smt2 = None
         if smt2:
-            ans, name = external_check(smt2, max(10, timeout_ms // 500))
+            ans, name = external_check(smt2, max(10, min(30, timeout_ms // 500)))
             if ans == "unsat":
                 r, solver = "unsat", name
             elif ans == "sat":
